@@ -44,7 +44,7 @@ TplRoles(name) == CASE name \in {"mm", "hill2", "expratio", "log"} -> <<"k", "K"
 Templates == {"mm", "hill2", "expdecay", "expratio", "log", "time", "inv", "poly"}
 
 \* ---- grids (parameters >= 1/10, interior states)
-XG == {I(1), I(2), I(3), R(1, 2), R(3, 2)}
+XG == {I(1), I(2), I(3), R(1, 2), R(3, 2), R(1, 64)}    \* 1/64 < 2h: the backward stencil points leave the positive orthant
 GridOf(role) == CASE role = "k" -> {R(1, 10), R(1, 2), I(1), I(2), I(3)}
                   [] role = "K" -> {R(1, 2), I(1), I(2)}
                   [] role = "n" -> {I(1), I(2), I(3)}
@@ -108,6 +108,9 @@ Finish == /\ pc = "build" /\ Len(rxs) >= 1
           \* (pp is bound by \E: a LET definition would be re-evaluated, i.e. re-drawn, at every use)
           /\ \E xx \in Pick([Species -> XG]), tt \in Pick(TG) : \E pp \in {[q \in 1..NP |-> ParamFor(q, xx)]} :
                LET en == [x |-> xx, p |-> pp, t |-> tt, V |-> One] IN
+               \* a tiny state (1/64 < 2h) is offered only to species that no Hill law reads as regulator or proportional
+               \* species and no general template reads: there a stencil point below 0 leaves the domain of the law itself
+               /\ (\A r \in 1..Len(rxs) : rxs[r].type = "massaction" \/ (RLe(R(1, 2), xx[rxs[r].s1]) /\ RLe(R(1, 2), xx[rxs[r].d]))) = TRUE
                /\ (HillOk(en)) = TRUE
                /\ \E tgv \in {Targets(en)} : (AllOk(tgv)) = TRUE /\ tg' = tgv
                /\ env' = en
